@@ -217,15 +217,16 @@ _P_MORE = {
     "C03": "PROVED: Link.is_compatible / _direct / _complement are the stated Boolean functions (an unspecified overlap on EITHER side matches), so that a path and its link meet in both arrival orders; the tags of group lines sharing an identifier are united with their datatypes whatever the order. ",
     "C04": "PROVED: validate_interval (E and F lines, connected or not) raises iff begin > end or `$` is misused, and the record-specific validation of E and F lines applies it to exactly their two intervals; the Field_* contracts pin every datatype with a grammar on ALL strings (a value followed by a newline is refused). ",
     "C05": "PROVED: disconnect / _disconnect_dependent_lines (order of the steps; every dependant of every declared collection, each once). ",
+    "C06": "PROVED: Ordered._find_edge_from_path_to_segment (the edge an O line leaves implicit, with its orientation: what the conversion of an ordered group to a GFA1 path writes). ",
     "C07": "PROVED: validate_interval raises gfapy errors only; the Field_* contracts hold for every string. ",
     "C08": "PROVED: Multiplication.multiply checks requested copy names (count, names carried by or referred to by a line, repeats) before anything is changed, and raises nothing afterwards; FieldArray._vpush / Multiline.add refuse a contradicting header value before writing; the tag loops of SameID write nothing before the check has passed. ",
     "C09": "PROVED: Finders._search_duplicate finds the line an arriving line collides with by record type and identifier; the instance replaced by a later line is detached, so that renaming it cannot touch the registry; the names computed for copies are fresh (ComputeCopyNames). ",
     "C12": "PROVED: Link.is_compatible / _direct / _complement; Finders._search_duplicate hands a link to the link search. ",
-    "C13": "PROVED: Segment._subclass: GFA1 syntax iff two fields precede the maximal run of tag-looking fields, GFA2 iff three, FormatError otherwise (descending loop, all numbers of fields), and its tag test accepts the tags of every datatype A i f Z J H B. ",
+    "C13": "PROVED: Segment._subclass: GFA1 syntax iff two fields precede the maximal run of tag-looking fields, GFA2 iff three, FormatError otherwise (descending loop, all numbers of fields), and its tag test accepts the tags of every datatype A i f Z J H B; __add_line_GFA1 / __add_line_GFA2 merge a header only if it names no version or their own (any other VN, also one beginning like it, is refused before anything is kept), refuse a segment written in the other syntax, and connect every other record once. ",
     "C14": "PROVED: Link.is_compatible / _direct / _complement (the link a path step asks for is found whatever side leaves the overlap unspecified). ",
     "C15": "PROVED: Multiplication.multiply as orchestrator, for every factor, list of copy names and distribution setting: factor < 0 refused, 0 = one removal, 1 = nothing, k >= 2 = one division of the counts by k, k-1 clones named by the requested (checked) or computed names in order, one distribution iff a policy is given (two loop invariants; callees as ghost events, see assumptions); __divide_counts sets each of KC/RC/FC that the line carries once to value div factor; __divide_segment_and_connection_counts divides the counts of the segment once and of every edge exactly once (an edge of the segment with itself is listed twice); __clone_segment_and_connections makes one connected copy of the segment and exactly one connected clone per edge, in which every end that was the segment is the copy, a named edge carries a fresh name and the originals are untouched; _compute_copy_names returns factor-1 pairwise distinct names none of which is carried or referred to by a line (for loop with an inner while loop). ",
     "C16": "PROVED: n_dovetails, n_containments, n_internals = (sum over the segments of the sizes of the corresponding collections) div 2, n_dead_ends = number of empty dovetail collections (loop invariants over a recursive sum, all numbers of segments); the sum is twice the number of records by the double-counting lemma collections_sum_twice (Lean), given the reference-graph invariant of C02. ",
-    "C17": "PROVED: the tag loops of SameID: a tag the new line does not define is imported with the stored value under the stored DATATYPE (declared before the value is set), a tag both define must agree (false values are values), all numbers of tags. ",
+    "C17": "PROVED: the tag loops of SameID: a tag the new line does not define is imported with the stored value under the stored DATATYPE (declared before the value is set), a tag both define must agree (false values are values), all numbers of tags; Ordered._find_edge_from_path_to_segment supplies the one edge that joins two adjacent oriented segments with its orientation, NotFoundError iff none fits, NotUniqueError iff two DIFFERENT edges fit (an edge of a segment with itself is listed twice and counts once) - the only step of group resolution within reach. ",
     "C18": "PROVED: Writer.field_to_s: at level >= 2 the text that is written has been validated whatever the stored value was (text or decoded value); Writer.to_list marks a line with an unwritable field; FieldData._set_existing_field validates at level 3 before storing; the decoded value of a list of identifiers is valid iff it is not empty and every element is an identifier (loop invariant). ",
     "C19": "PROVED: Cloning.clone copies every field by kind (reference -> identifier text, JSON -> round trip, array / list / text / position -> fresh object; loop invariant over all fields), hands the copy to the constructor with version and dialect of the original, gives the clone a datatype table of its own and neither owner nor collections; Line.__eq__ is true iff record type and field names agree and every field holds equal values or is written the same way. ",
     "C20": "PROVED: _set_existing_field drops the datatype of a tag exactly when None is assigned to a tag that has a value; Writer.field_to_s / to_list; DeleteTag for four receiver classes; FieldData.set by case (a new tag is stored together with the default datatype of its value, every refusal precedes every write); the table of default datatypes holds the documented entries (finite table). ",
